@@ -18,16 +18,37 @@ ED_L = 0x1000000000000000000000000000000014def9dea2f79cd65812631a5cf5d3ed
 ORDER = {"g1": BLS_R, "g2": BLS_R, "ed": ED_L}
 
 
-def run_model(runner, lines, timeout=3000):
+def run_model(runner, lines, timeout=3000, par=12):
+    """Feed `lines` to the extracted model (one answer per line); the work is split over `par` processes."""
     if not lines:
         return []
-    p = subprocess.run([runner], input=("\n".join(lines) + "\n").encode(), stdout=subprocess.PIPE,
-                       stderr=subprocess.PIPE, timeout=timeout)
-    out = p.stdout.decode().split("\n")
-    if out and out[-1] == "":
-        out.pop()
-    if p.returncode != 0 or len(out) != len(lines):
-        raise RuntimeError("model runner failed (%d answers for %d lines): %s" % (len(out), len(lines), p.stderr.decode()[-500:]))
+    k = max(1, min(par, len(lines) // 8))
+    size = (len(lines) + k - 1) // k
+    chunks = [lines[i:i + size] for i in range(0, len(lines), size)]
+    procs = [subprocess.Popen([runner], stdin=subprocess.PIPE, stdout=subprocess.PIPE, stderr=subprocess.PIPE) for _ in chunks]
+    import threading
+    res = [None] * len(chunks)
+
+    def work(i):
+        try:
+            o, e = procs[i].communicate(("\n".join(chunks[i]) + "\n").encode(), timeout=timeout)
+            res[i] = (procs[i].returncode, o.decode(), e.decode())
+        except subprocess.TimeoutExpired:
+            procs[i].kill()
+            res[i] = (124, "", "timeout")
+    ths = [threading.Thread(target=work, args=(i,)) for i in range(len(chunks))]
+    for t in ths:
+        t.start()
+    for t in ths:
+        t.join()
+    out = []
+    for (rc, o, e), ch in zip(res, chunks):
+        ol = o.split("\n")
+        if ol and ol[-1] == "":
+            ol.pop()
+        if rc != 0 or len(ol) != len(ch):
+            raise RuntimeError("model runner failed (rc=%s, %d answers for %d lines): %s" % (rc, len(ol), len(ch), e[-500:]))
+        out += ol
     return out
 
 
